@@ -363,3 +363,59 @@ def translate_create_answer(fn):
         chain = "if cmd = %d then some \"%s\" else %s" % (code, tmpl, chain)
     return ("def createAnswerTmpl (cmd : Nat) : Option String := %s\n"
             "def copiesHbh : Bool := %s\ndef copiesE2e : Bool := %s\n" % (chain, str(copies["hop_by_hop"]).lower(), str(copies["end_to_end"]).lower()))
+
+
+# --------------------------------------------------------------------------- DiameterAssociation.split_data_stream
+
+def translate_split(fn):
+    """`split_data_stream(stream)`: a shape-checking translation. The function must be
+         index = 0
+         while len(stream) - index >= A:
+             length = int.from_bytes(stream[index+B:index+C], byteorder="big")
+             if length < D or len(stream) - index < length: break
+             index += length
+         if len(stream) - index >= E and int.from_bytes(stream[index+B':index+C'], byteorder="big") < F: return stream, b""
+         return stream[:index], stream[index:]
+       (names free, constants A..F, B, C, B', C' free). The constants go into the Lean text verbatim; the `while` becomes a
+       recursion on a fuel argument that the caller instantiates with len(stream) (every iteration advances by >= D >= 1 bytes
+       is part of what the tie theorem checks, since it compares with the well-founded model)."""
+    import re
+    f = getattr(fn, "__func__", fn)
+    src = textwrap.dedent(inspect.getsource(f))
+    tree = ast.parse(src).body[0]
+    args = [a.arg for a in tree.args.args]
+    if len(args) != 1:
+        raise Untranslatable("signature")
+    st = args[0]
+    body = [s for s in tree.body if not (isinstance(s, ast.Expr) and isinstance(s.value, ast.Constant))]
+    if len(body) != 4:
+        raise Untranslatable("%d statements" % len(body))
+    u = [ast.unparse(s) for s in body]
+    m0 = re.fullmatch(r"(\w+) = 0", u[0])
+    if not m0 or not isinstance(body[1], ast.While) or body[1].orelse:
+        raise Untranslatable("loop header")
+    ix = m0.group(1)
+    lenx = r"len\(%s\) - %s" % (st, ix)
+    mw = re.fullmatch(lenx + r" >= (\d+)", ast.unparse(body[1].test))
+    wb = [ast.unparse(s) for s in body[1].body if not (isinstance(s, ast.Expr) and isinstance(s.value, ast.Constant))]
+    if not mw or len(wb) != 3:
+        raise Untranslatable("loop shape")
+    ma = re.fullmatch(r"(\w+) = int\.from_bytes\(%s\[%s \+ (\d+):%s \+ (\d+)\], byteorder='big'\)" % (st, ix, ix), wb[0])
+    if not ma:
+        raise Untranslatable("length read `%s`" % wb[0][:60])
+    ln = ma.group(1)
+    mi = re.fullmatch(r"if %s < (\d+) or %s < %s:\n\s+break" % (ln, lenx, ln), wb[1])
+    if not mi or wb[2] != "%s += %s" % (ix, ln):
+        raise Untranslatable("loop body `%s` / `%s`" % (wb[1][:50], wb[2][:30]))
+    mf = re.fullmatch(r"if %s >= (\d+) and int\.from_bytes\(%s\[%s \+ (\d+):%s \+ (\d+)\], byteorder='big'\) < (\d+):\n\s+return \(%s, b''\)"
+                      % (lenx, st, ix, ix, st), u[2])
+    if not mf or u[3] != "return (%s[:%s], %s[%s:])" % (st, ix, st, ix):
+        raise Untranslatable("tail `%s` / `%s`" % (u[2][:60], u[3][:40]))
+    A, B, C, D = mw.group(1), ma.group(2), ma.group(3), mi.group(1)
+    E, B2, C2, F = mf.group(1), mf.group(2), mf.group(3), mf.group(4)
+    return ("def splitIdx (stream : Bytes) : Nat → Nat → Nat\n  | 0, i => i\n  | f+1, i =>\n"
+            "    if stream.length - i ≥ %s then\n      let length := fromBE ((stream.drop (i + %s)).take (%s - %s))\n"
+            "      if length < %s ∨ stream.length - i < length then i else splitIdx stream f (i + length)\n    else i\n\n"
+            "def splitDataStream (stream : Bytes) : Bytes × Bytes :=\n  let index := splitIdx stream stream.length 0\n"
+            "  if stream.length - index ≥ %s ∧ fromBE ((stream.drop (index + %s)).take (%s - %s)) < %s then (stream, [])\n"
+            "  else (stream.take index, stream.drop index)\n" % (A, B, C, B, D, E, B2, C2, B2, F))
